@@ -48,8 +48,9 @@ def iseq(xs) -> str:
     return '<<' + ', '.join(str(int(x)) for x in xs) + '>>'
 
 
-def instance(tier: str) -> dict:
-    """The constants of the model instance, per tier."""
+def instance(tier: str, seed: int = 0) -> dict:
+    """The constants of the model instance, per tier.  In the thorough tier the seed adds one
+    threshold, one Box-Cox argument, one density parameter and one regression measurement."""
     quick = tier == 'quick'
     sw = BC_SWITCH_K
     small = [100000, 20000, sw + 1, sw, sw - 1, 9000, 1000]  # 1e-4, 2e-5, switch +- 1e-9, 9e-6, 1e-6
@@ -76,8 +77,8 @@ def instance(tier: str) -> dict:
         RgMs=['7/5', '-3', '0'] if quick else ['7/5', '-3', '0', '13/10', '9/2'],
         RgSs=['1', '3/2', '1/4'] if quick else ['1', '3/2', '1/4', '5', '1/10'],
         SgMaxVars=2 if quick else 3,
-        SgLevelSets=[[0, 1], [1, 2, 3], [5, 2, 9]] if quick else [[0, 1], [1, 2, 3], [5, 2, 9], [2, 1]],
-        SgShiftSeqs=[['1/4', '-1'], ['2', '1/2', '-3/4']] if quick else [['1/4', '-1'], ['3', '1/8'], ['2', '1/2', '-3/4'], ['-5/2', '1', '1/3']],
+        SgLevelSets=[[0, 1], [1, 2, 3], [5, 2, 9]],
+        SgShiftSeqs=[['1/4', '-1'], ['2', '1/2', '-3/4']] if quick else [['1/4', '-1'], ['3', '1/8'], ['2', '1/2', '-3/4']],
         SgRefVals=['1/2'] if quick else ['1/2', '-2'],
         SgPrefixes=[1, 2],
         NsOrders=[[10, 3, 7, 5], [2, 1, 3]] if quick else [[10, 3, 7, 5, 1], [2, 4, 1, 3], [2, 1, 3]],
@@ -87,7 +88,10 @@ def instance(tier: str) -> dict:
         NsNameOrders=['none', 'choice', 'sorted', 'reversed'],
     )
     if not quick:
-        inst['SgShiftSeqs'] = inst['SgShiftSeqs'][:3] + [['-5/2', '1', '1/3']]
+        inst['PwGrid'].append(str(F(seed % 17 + 12, 2)))      # 6 .. 14 in halves
+        inst['BcXs'].append(str(F(seed % 23 + 3, 7)))         # 3/7 .. 25/7
+        inst['DsGrid'].append(str(F(seed % 13 - 6, 4)))       # -3/2 .. 3/2 in quarters
+        inst['RgYs'].append(str(F(seed % 19 - 9, 3)))
     return inst
 
 
@@ -123,6 +127,19 @@ def cfg(inst: dict, family: str, mutation: str = 'none', emit: bool = True) -> s
     if emit:
         out.append(f'INVARIANT {fam["emit"]}')
     return '\n'.join(out) + '\n'
+
+
+def preload():
+    """Import everything the replay functions need, so that forked workers inherit the modules."""
+    import numpy  # noqa
+    import pandas  # noqa
+    import biogeme.database  # noqa
+    import biogeme.distributions  # noqa
+    import biogeme.expressions  # noqa
+    import biogeme.loglikelihood  # noqa
+    import biogeme.models  # noqa
+    import biogeme.nests  # noqa
+    import biogeme.segmentation  # noqa
 
 
 # ------------------------------------------------------------------------------------ values
@@ -269,7 +286,10 @@ def pw_replay(group, function=None) -> dict:
         if formula_vals is not None:
             _cmp(mism, 'piecewise:formula-vs-function', dict(f, kind='coincide'), got, formula_vals[i], TOL_EXACT, x=str(xs[i]),
                  note='want = value of piecewise_formula, got = piecewise_function', **show)
-    return dict(n=n, mism=mism, cases=len(group))
+    sample = dict(family='piecewise', **show, x=str(xs[0]),
+                  expected=dict(variables=[str(fr(v)) for v in r0['vars']], formula=str(fr(r0['formula'])), function=str(fr(r0['function']))),
+                  observed=dict(formula=None if formula_vals is None else float(formula_vals[0])))
+    return dict(n=n, mism=mism, cases=len(group), sample=sample)
 
 
 def buggy_piecewise_function(x, thresholds, betas):
@@ -335,7 +355,8 @@ def bc_replay(group, maker=None) -> dict:
                 want = ev(r['ref'])
                 oracle_gap = max(oracle_gap, abs(ev(r['def']) - want) / max(1.0, abs(want)))
                 _cmp(mism, 'boxcox:value', f, v[i], want, TOL_TERM, x=str(xs[i]), ell=str(l1), ell_float=float(l1), exponent_given_as=how)
-        return dict(n=n, mism=mism, cases=len(group), oracle_gap=oracle_gap)
+        sample = dict(family='boxcox', x=str(xs[0]), ell=str(l1), expected=terms.show(r0['ref']), expected_value=ev(r0['ref']), observed=float(v[0]))
+        return dict(n=n, mism=mism, cases=len(group), oracle_gap=oracle_gap, sample=sample)
     # continuity: two neighbouring exponents
     l2 = fr(r0['l2'])
     f = dict(family='boxcox', kind='continuity', straddles_switch=bool((abs(l1) < F(1, 10**5)) != (abs(l2) < F(1, 10**5))))
@@ -468,7 +489,9 @@ def ds_replay(group) -> dict:
             mism.append(dict(key='density:logistic:monotone', facts=dict(fq, kind='monotone'), detail=dict(show)))
         if not np.allclose(v + v[::-1], 1.0, rtol=0, atol=1e-12):
             mism.append(dict(key='density:logistic:symmetry', facts=dict(fq, kind='symmetry'), detail=dict(show)))
-    return dict(n=n, mism=mism, cases=len(group), quad=quad)
+    sample = dict(family='density', **show, x=str(xs[0]), expected=terms.show(r0['value']), expected_value=ev(r0['value']),
+                  observed=float(_val(e, d)[0]), mass=quad)
+    return dict(n=n, mism=mism, cases=len(group), quad=quad, sample=sample)
 
 
 # ------------------------------------------------------------------------------------ regression
@@ -501,7 +524,7 @@ def rg_replay(r) -> dict:
     n += 1
     _cmp(mism, 'regression:log-of-normalpdf', dict(f, kind='coincide'), math.exp(got), pdf, TOL_REG, note='got = exp(loglikelihoodregression), want = normalpdf', **show)
     _cmp(mism, 'regression:normalpdf', dict(f, kind='pdf'), pdf, ev(r['pdf']), TOL_TERM, **show)
-    return dict(n=n, mism=mism, cases=1)
+    return dict(n=n, mism=mism, cases=1, sample=dict(family='regression', **show, expected=terms.show(r['ll']), expected_value=want, observed=float(got)))
 
 
 # ------------------------------------------------------------------------------------ segmentation
@@ -561,6 +584,7 @@ def sg_replay(group) -> dict:
     rows = [[int(segs[k]['vals'][r['row'][k] - 1]) for k in range(len(segs))] for r in group]
     d = _db({f'v{k + 1}': [row[k] for row in rows] for k in range(len(segs))})
     show = dict(reference_value=str(ref), parameters=bdict, mappings=[s['vals'] for s in segs], references=refs)
+    sample = None
     exprs = [('Segmentation.segmented_beta', seg.segmented_beta()), ('segmented_beta()', segmented_beta(Beta('asc', 0.25, -10, 10, 0), tuples(), prefix=prefix))]
     code = seg.segmented_code()
     ns = {k_: getattr(ex, k_) for k_ in ('Beta', 'Variable', 'bioMultSum', 'Numeric')}
@@ -583,7 +607,9 @@ def sg_replay(group) -> dict:
             if len(want) != 1:
                 raise RuntimeError(f'no expectation for references {refs}')
             _cmp(mism, 'segmentation:value', f, v[i], float(fr(want[0]['value'])), TOL_EXACT, how=how, row=rows[i], **show)
-    return dict(n=n, mism=mism, cases=len(group))
+            if i == 0:
+                sample = dict(family='segmentation', **show, row=rows[0], code=code, expected=str(fr(want[0]['value'])), observed=float(v[0]), how=how)
+    return dict(n=n, mism=mism, cases=len(group), sample=sample)
 
 
 # ------------------------------------------------------------------------------------ nests
@@ -654,4 +680,4 @@ def ns_replay(r, corrupt=None) -> dict:
                     bad = bad or dict(pair=[name_of[a], name_of[b]], got=g, want=want[i][j])
         if bad:
             mism.append(dict(key='nests:value', facts=f, detail=dict(show, **bad, matrix=np.asarray(df).tolist())))
-    return dict(n=n, mism=mism, cases=1)
+    return dict(n=n, mism=mism, cases=1, sample=dict(family='nests', **show, expected=want, observed=np.asarray(df).tolist()))
